@@ -219,7 +219,10 @@ class Check(PropertyCheck):
                   "interval lemma. Tie: the real Block addon through the real AddonManager and "
                   "ProxyConnectionHandler.handle_client on all registry boundary addresses x notations x option pairs x every "
                   "instantiable registered mode, random addresses, malformed texts, 2-6 call histories on one Block instance, "
-                  "and `cls` cases comparing table class AND membership class with ipaddress on boundary/random integers.")
+                  "`cls` cases comparing table class AND membership class with ipaddress on boundary/random integers, and "
+                  "`parse` cases: for every generated and raw peer text (as it stands and without its %zone suffix) the parser "
+                  "model's (family, integer, scope id) is compared with ipaddress.ip_address — the value-level tie of parseIp, "
+                  "which other properties import.")
     level_note = ("trusted: Lean kernel; the network constants are read from the running interpreter and the three class "
                   "definitions are transcribed by hand from CPython 3.12.1 (fingerprinted; an interpreter with exception "
                   "lists is refused by the translator) and tied by the `cls` cases; `addr & netmask == network` is modelled "
@@ -242,7 +245,7 @@ class Check(PropertyCheck):
             "starts with a fresh instance) from the same address in the same / another spelling, the mode varying between "
             "calls (systematically: local then another mode and the reverse, no option change in between) and the two options "
             "toggled in between; every call is judged by the per-call oracle and compared with the stateless model. distinct = (peer text, mode, options); all are non-trivial.")
-    budget = {"quick": 12000, "thorough": 300000}
+    budget = {"quick": 14000, "thorough": 330000}
     time_budget = {"quick": 13, "thorough": 480}
     fingerprints = ["mitmproxy.addons.block:Block.client_connected",
                     "mitmproxy.proxy.server:ConnectionHandler.handle_client",
@@ -331,6 +334,23 @@ class Check(PropertyCheck):
                         yield c
 
     def generate(self, rng, tier):
+        """every generated / raw peer text is additionally sent, once, as a `parse` case: the value-level tie of the
+        parser model (family, integer, scope id) with ipaddress.ip_address — for the text as it stands (scope ids reach
+        the parser that way) and for the part Block hands to the parser (`rsplit('%', 1)[0]`)"""
+        seen = set()
+        for case in self._generate(rng, tier):
+            yield case
+            steps = case["steps"] if case["k"] == "hist" else [case]
+            for st in steps:
+                if st["k"] not in ("addr", "raw"): continue
+                t = peer_text(st)
+                for text in (t, t.rsplit("%", 1)[0]):
+                    if text in seen: continue
+                    seen.add(text)
+                    if len(seen) > 200000: seen.clear()
+                    yield {"k": "parse", "text_hex": hx(text.encode("utf-8", "surrogateescape"))}
+
+    def _generate(self, rng, tier):
         thorough = tier == "thorough"
         cuts = {4: _cuts(4) + [2 ** 32], 6: _cuts(6) + [2 ** 128]}
         texts = [b"", b"%", b"%eth0", b"1.2.3.4%", b"1.2.3.4%a%b", b"fe80::1%a%b", b"fe80::1%%b", b"::1%", b"::1%a/b",
@@ -440,6 +460,8 @@ class Check(PropertyCheck):
 
     # ---------------- implementation ----------------
     def impl(self, case):
+        if case["k"] == "parse":
+            return self._impl_step(None, case)
         e = env()
         e.fresh()
         if case["k"] == "hist":
@@ -448,6 +470,16 @@ class Check(PropertyCheck):
         return self._impl_step(e, case)
 
     def _impl_step(self, e, case):
+        if case["k"] == "parse":
+            text = unhx(case["text_hex"]).decode("utf-8", "surrogateescape")
+            try:
+                a = ipaddress.ip_address(text)
+            except ValueError:
+                return {"parse": "err"}
+            if a.version == 4:
+                return {"parse": f"v4 {int(a)}"}
+            sc = a.scope_id
+            return {"parse": f"v6 {int(a)} " + ("none" if sc is None else hx(sc.encode("utf-8", "surrogateescape")))}
         if case["k"] == "cls":
             # the library's own answer for this integer (tie of the table AND of the membership transcription)
             a = ipaddress.IPv4Address(int(case["n"])) if case["fam"] == 4 else ipaddress.IPv6Address(int(case["n"]))
@@ -497,7 +529,7 @@ class Check(PropertyCheck):
             for i, (st, o) in enumerate(zip(case["steps"], obs["steps"])):
                 fails += [f"call {i + 1} of {len(case['steps'])} on one Block instance: {f}" for f in self.oracle(st, o)]
             return fails
-        if case["k"] == "cls":
+        if case["k"] in ("cls", "parse"):
             return []          # library tie only (compared with the model's table and membership classes)
         if case["k"] == "raw":
             # a free-form peer text: when the text without its %zone suffix is an address for `ipaddress`, the same
@@ -535,6 +567,8 @@ class Check(PropertyCheck):
     def model_lines(self, case):
         if case["k"] == "hist":
             return [l for st in case["steps"] for l in self.model_lines(st)]
+        if case["k"] == "parse":
+            return [f"parse {case['text_hex']}"]
         if case["k"] == "cls":
             return [f"cls {case['fam']} {case['n']}"] + ([f"render4 {case['n']}"] if case["fam"] == 4 else [])
         return [f"decide {hx(peer_text(case).encode('utf-8', 'surrogateescape'))} {case['mode']} {case['bg']} {case['bp']}"]
@@ -547,6 +581,8 @@ class Check(PropertyCheck):
     def impl_view(self, case, obs):
         if case["k"] == "hist":
             return [self.impl_view(st, o) for st, o in zip(case["steps"], obs["steps"])]
+        if case["k"] == "parse":
+            return obs["parse"]
         if case["k"] == "cls":
             # table class and membership class must both be the library's; IPv4: the renderers must be inet_ntop's
             return obs["cls"] + " " + obs["cls"] + (" | " + obs["ntop"] if "ntop" in obs else "")
@@ -555,6 +591,8 @@ class Check(PropertyCheck):
     def classify(self, case, obs):
         if case["k"] == "hist":
             return ("hist",) + tuple(self.classify(st, o) for st, o in zip(case["steps"], obs["steps"]))
+        if case["k"] == "parse":
+            return ("parse", case["text_hex"])
         if case["k"] == "cls":
             return ("cls", case["fam"], case["n"])
         return (peer_text(case).encode("utf-8", "surrogateescape").hex(), case["mode"], case["bg"], case["bp"])
@@ -571,6 +609,9 @@ class Check(PropertyCheck):
                 if same_addr and not same_opts: out.append("hist:same-addr-options-toggled")
             for o in obs["steps"]: out.append("verdict:" + o["verdict"])
             return out
+        if case["k"] == "parse":
+            r = obs["parse"]
+            return ["parse:" + (r if r == "err" else r.split(" ")[0] + (":scoped" if r.startswith("v6") and not r.endswith("none") else ""))]
         if case["k"] == "cls":
             return [f"cls:v{case['fam']}:{obs['cls']}"]
         out = ["verdict:" + obs["verdict"], "mode:" + ("local" if case["mode"] == "local" else "non-local")]
@@ -579,6 +620,7 @@ class Check(PropertyCheck):
         return out
 
     def neighbours(self, case, rng):
+        if case["k"] == "parse": return
         if case["k"] == "hist":
             for st in case["steps"]:
                 for m in MODE_NAMES:
